@@ -97,4 +97,11 @@ TEXT = {
         "design_ref": "DESIGN.md section 2, C12",
         "level_note": "Trusted base: reference model in harness/props/c12_test.go (format from the protocol document), hlsim, synctest quiescence.",
     },
+    "C13": {
+        "engine": "E1 bubble world",
+        "technique": "model-based stateful property testing (rapid state machine) with notification-folding reference clients; long histories across the 16-bit id wrap are reached by driving the production client registry directly",
+        "level_text": "Generated presence histories; the oracle is the equivalence the property states: the roster every client obtains by folding the notifications it received equals a fresh user list, after every step; id uniqueness is checked on the registry and through id-addressed requests (message, invitation, info, kick). Histories with more than 65,535 connections are produced by fast-forwarding the real registry while users stay connected.",
+        "design_ref": "DESIGN.md section 2, C13",
+        "level_note": "Trusted base: folding rules of the reference client (protocol document), hlsim, synctest. The fast-forward uses throw-away registry entries (Add/Delete on the production MemClientMgr), not 65k real logins.",
+    },
 }
